@@ -104,15 +104,28 @@ fn main() {
         Some("replay") => {
             let mut input = String::new();
             std::io::stdin().read_to_string(&mut input).unwrap();
-            // the primitive is named by the first `new` line
-            let prim = input
-                .lines()
-                .find(|l| l.starts_with("new "))
-                .and_then(|l| l.split_whitespace().nth(1))
-                .unwrap_or("")
-                .to_string();
-            let mk = maker(&prim).expect("unknown primitive");
-            replay(&input, mk, &mut out);
+            // every `new` line names its primitive; a file may hold histories of several
+            let mut chunk = String::new();
+            let mut prim = String::new();
+            let flush = |chunk: &str, prim: &str, out: &mut dyn Write| {
+                if !chunk.is_empty() {
+                    let mk = maker(prim).expect("unknown primitive");
+                    replay(chunk, mk, out);
+                }
+            };
+            for l in input.lines() {
+                if l.starts_with("new ") {
+                    let p = l.split_whitespace().nth(1).unwrap_or("").to_string();
+                    if p != prim {
+                        flush(&chunk, &prim, &mut out);
+                        chunk.clear();
+                        prim = p;
+                    }
+                }
+                chunk.push_str(l);
+                chunk.push('\n');
+            }
+            flush(&chunk, &prim, &mut out);
         }
         _ => {
             eprintln!("usage: drive dfs|random|replay ...");
